@@ -31,8 +31,9 @@ TRUSTED = ['scripted-model subclass harness/scripted.py (same script is the Coq 
            'year strings matching several / one / no quarter); plain pandas Index, NumPy, list, tuple and range spans use the modelled lookup']
 ASSUMPTIONS = ['_evaluate and the hooks write only the column of the period they are called for (frame premise of C05_failure_containment; '
                'true of the scripted models used here, C05_scripted_oracles_frame)',
-               'the statement\'s clauses about labels are evaluated on spans without repeated labels (with repeats the lookup itself is '
-               'ambiguous); repeated-label spans are still compared with the model']
+               'a label GIVEN by the caller that is carried by several periods of a list / tuple span is outside the statement (list.index '
+               'silently takes the first one; compared with the model only); on NumPy / pandas spans it must raise KeyError; default start / '
+               'end carry no condition on the labels (fix 7cd6323)']
 EXHAUSTIVE = {'quick': False, 'thorough': False}
 CASE_TIMEOUT = 30
 
@@ -229,26 +230,12 @@ def explain(case, obs):
 
 
 def guard(case, obs):
-    return False          # no kept finding of C05 (finding #4 was repaired by a094259)
+    return False          # no kept finding of C05 (finding #4 repaired by a094259, defaults-looked-up-by-label by 7cd6323)
 
 
 # --------------------------------------------------------------------------- oracle
 def _state(o):
     return (o['vals'], o['status'], o['iters'], o['log'])
-
-
-KNOWN_DEFAULTS_SIG = 'C05|default-start-end-looked-up-by-label|repeated-label'
-
-
-def default_by_label_class(case):
-    """The class of the kept finding: solve() / iter_periods() turn a DEFAULT start / end position into its label and look that
-    label up again; when that label is carried by several periods the round trip does not come back to the position."""
-    if case['entry'] not in ('solve', 'iter_periods') or case['span_type'] in sc.SPAN_NODUP or case['n'] == 0:
-        return False
-    n = case['n']
-    cnt = sc.label_counts(case)
-    a, b = case.get('lags', 0), n - 1 - case.get('leads', 0)
-    return (case['start'] is None and 0 <= a < n and cnt[a] >= 2) or (case['end'] is None and 0 <= b < n and cnt[b] >= 2)
 
 
 def oracle_hist(case, obs):
@@ -259,26 +246,15 @@ def oracle_hist(case, obs):
         return []
     k, got, want, st_m, st_t = obs['twin_diff'][0]
     call = case['calls'][k]
-    c1 = dict(case, start=call.get('start'), end=call.get('end'), entry=call['api'])
     what = ('step %d of the history, %s(%s) on a %s span: outcome %s, status / iterations %s; the single-period calls on the twin give %s, %s'
             % (k, call['api'], {x: call[x] for x in ('t', 'start', 'end') if x in call}, case['span_type'], got, st_m, want, st_t))
-    if call['api'] == 'solve' and default_by_label_class(c1):
-        return [{'sig': KNOWN_DEFAULTS_SIG, 'what': 'solve() with a default start / end on a span in which the label of the default period is '
-                 'carried by several periods (the default position is converted to its label and looked up again); ' + what}]
     return [{'sig': 'C05|history|vs-single-period-calls', 'what': what}]
 
 
 def oracle(case, obs):
     if case.get('kind') == 'hist':
         return oracle_hist(case, obs)
-    fails = _oracle(case, obs)
-    c = view(case, obs)
-    if fails and default_by_label_class(c):
-        return [{'sig': KNOWN_DEFAULTS_SIG,
-                 'what': 'solve() with a default start / end on a %s span in which the label of the default period is carried by several '
-                         'periods: the default position is converted to its label and looked up again (list: first occurrence, NumPy: '
-                         'KeyError, pandas: slice / mask -> TypeError); %s' % (c['span_type'], fails[0]['what'])}]
-    return fails
+    return _oracle(case, obs)
 
 
 def _oracle(case, obs):
